@@ -33,7 +33,7 @@ CBMC_FLAGS = ["--no-malloc-may-fail", "--no-undefined-shift-check", "--no-signed
 
 # a property id is `<function>.<class>.<n>`; the function part may itself contain brackets (`<usize as SliceIndex<[T]>>::index`),
 # so the id is delimited by its `.class.n] ` ending, not by the first `]`
-PROP_LINE = re.compile(r"^\[(?P<name>.+?\.\d+)\] (?:line (?P<line>\d+) )?(?P<desc>.*): (?P<status>SUCCESS|FAILURE|UNKNOWN|ERROR)$")
+PROP_LINE = re.compile(r"^\[(?P<name>.+?\.(?:\d+|recursion))\] (?:line (?P<line>\d+) )?(?P<desc>.*): (?P<status>SUCCESS|FAILURE|UNKNOWN|ERROR)$")
 SUMMARY_LINE = re.compile(r"^\*\* (\d+) of (\d+) failed")
 HEAD_LINE = re.compile(r"^(?P<file>\S.*) function (?P<fn>.+)$")
 
@@ -199,7 +199,7 @@ def parse_cbmc(text):
             n_lines += 1
             if status == "FAILURE":
                 n_fail_lines += 1
-            cls = name.rsplit(".", 2)[-2] if name.count(".") >= 2 else name.split(".")[0]
+            cls = "recursion" if name.endswith(".recursion") else (name.rsplit(".", 2)[-2] if name.count(".") >= 2 else name.split(".")[0])
             desc = re.sub(r"^\[KANI_CHECK_ID_[^\]]*\]\s*", "", desc).strip()
             desc = desc.strip('"')
             checks += 1
